@@ -86,7 +86,7 @@ def required(tier):
             "arith_value_checks": 25000, "arith_refused_checks": 15000, "inplace_twins": 15000,
             "log_conv_checks": 1500, "log_pairs": 49, "parse_checks": 1500, "generated_offset_units": 200,
             "cell_mode_matrix": 2000, "rules_used": 40, "add_sub_branches": 9, "iadd_sub_branches": 9,
-            "modes": 4, "result_unit_definedness_checks": 20000, "redefined_offset_probes": 60}
+            "modes": 4, "result_unit_definedness_checks": 20000, "redefined_offset_probes": 60, "reused_object_operations": 500}
 
 
 def shards(tier, seed):
@@ -109,6 +109,7 @@ def shards(tier, seed):
     out.append({"kind": "conv", "name": "conv", "mags": 6 if q else 40})
     out.append({"kind": "parse", "name": "parse", "n": 1 if q else 6})
     out.append({"kind": "redef", "name": "redef", "n": 12 if q else 120})
+    out.append({"kind": "reuse", "name": "reuse", "n": 60 if q else 1500})
     return out
 
 
@@ -1302,6 +1303,52 @@ def run_redef(spec, rec, rng, pint):
                                   workload="redef", path=path, probe=pname, stage=stage)
 
 
+def run_reuse(spec, rec, rng, pint):
+    """The same Quantity OBJECT is used in arithmetic, converted in place to a unit of another kind (offset,
+    absolute, delta), and used again: it must behave exactly like a fresh quantity with its current
+    magnitude and units (no per-object memory of what kind of units it used to carry)."""
+    import numpy as np
+    units = ["degC", "degF", "kelvin", "degR", "delta_degC", "delta_degF"]
+    others = ["degC", "kelvin", "delta_degC", "degF", "delta_degF", "degR"]
+    for auto in (False, True):
+        ureg = pint.UnitRegistry(autoconvert_offset_to_baseunit=auto, cache_folder=None)
+        Q = ureg.Quantity
+
+        def out(fn):
+            try:
+                r = fn()
+                return ("ok", str(r.units), np.round(np.asarray(r.magnitude, dtype=float), 9).tolist())
+            except Exception as e:  # noqa: BLE001
+                return ("raised", type(e).__name__)
+        for i in range(spec["n"]):
+            a, b = rng.sample(units, 2)
+            if a.startswith("delta_") != b.startswith("delta_"):
+                b = rng.choice([u for u in units if u.startswith("delta_") == a.startswith("delta_") and u != a])
+            arr = rng.random() < 0.4
+            x = np.array([rng.uniform(-50, 400), rng.uniform(-50, 400)]) if arr else rng.uniform(-50, 400)
+            q = Q(x.copy() if arr else x, a)
+            warm = rng.choice(others)
+            out(lambda: q + Q(1.0, warm))          # first use: whatever it answers, it may memoise
+            out(lambda: q - Q(1.0, warm))
+            try:
+                q.ito(b)
+            except Exception:  # noqa: BLE001
+                continue
+            for other in rng.sample(others, 3):
+                for opname, op in (("+", lambda u, v: u + v), ("-", lambda u, v: u - v), ("r-", lambda u, v: v - u)):
+                    fresh = Q(np.array(q.magnitude, copy=True) if arr else q.magnitude, str(q.units))
+                    r_old = out(lambda: op(q, Q(2.0, other)))
+                    r_new = out(lambda: op(fresh, Q(2.0, other)))
+                    rec.count("reused_object_operations")
+                    rec.case(("reuse", auto, a, b, other, opname, arr), nontrivial=True)
+                    if r_old != r_new:
+                        rec.violation("reused-object-differs-from-fresh-quantity",
+                                      {"first_units": a, "converted_in_place_to": b, "operand": f"2 {other}", "op": opname,
+                                       "reused": str(r_old)[:200], "fresh": str(r_new)[:200], "auto": auto},
+                                      workload="reuse", operator=opname, mode=f"auto={int(auto)}",
+                                      magnitude="ndarray" if arr else "scalar")
+
+
 def run_shard(spec, rec):
     from harness import pintload, refmodel
     import pint
@@ -1322,6 +1369,8 @@ def run_shard(spec, rec):
         run_parse(spec, rec, rng, pintload, pint, m)
     elif kind == "redef":
         run_redef(spec, rec, rng, pint)
+    elif kind == "reuse":
+        run_reuse(spec, rec, rng, pint)
     else:
         rec.inconc(f"unknown shard kind {kind}")
     watch.report(rec)
